@@ -149,3 +149,25 @@ Proof.
   exact C01_no_single_byte_table_holds_feff.
 Qed.
 Print Assumptions C01_decodes_with_the_crates_tables.
+
+From Model Require Import Pipeline Utf Codecs.
+From Proofs Require Import CodecFacts PipelineFacts.
+
+(* With the codecs modelled (Model/Codecs.v: UTF-8, UTF-16LE/BE and every single-byte table; the CJK decoders stay
+   an arbitrary oracle inside B) the decoding clause holds of the composed pipeline with NO hypothesis: LazyContract
+   is a theorem about it (no generated table holds U+FEFF, every supported single-byte name has a table). *)
+Theorem C01_decodes_pipeline :
+  forall (B : base_oracles) b cfg r, b <> [] -> from_bytes F32ops (pipeline_dec B) b cfg = Ok r ->
+  forall m e, In m r -> In e (suitable_encodings F32ops m) ->
+    m_payload F32ops m = b /\ exists t, m_text F32ops m = Some t /\ sdecode F32ops (pipeline_dec B) e (strip b e) = Some t.
+Proof. exact pipeline_dec_decodes. Qed.
+Print Assumptions C01_decodes_pipeline.
+
+Theorem C01_lazy_contract_holds_of_the_pipeline : forall B, LazyContract F32ops (pipeline_dec B).
+Proof. exact pipeline_dec_lazy_contract. Qed.
+Print Assumptions C01_lazy_contract_holds_of_the_pipeline.
+
+Theorem C01_supported_single_byte_names_have_tables :
+  forallb (fun e => is_multi_byte e || match sb_table e with Some _ => true | None => false end) IANA_SUPPORTED = true.
+Proof. exact supported_single_byte_names_have_tables. Qed.
+Print Assumptions C01_supported_single_byte_names_have_tables.
